@@ -11,7 +11,9 @@ import (
 	"bytes"
 	"context"
 	"encoding/json"
+	"errors"
 	"fmt"
+	"strings"
 	"sync"
 	"time"
 
@@ -32,6 +34,8 @@ const (
 	codeConnClosed  = 3000
 	codeHandlerDisc = 4242
 	codeHandlerErr  = 477
+	codeServerError = 3004
+	failPrefix      = "fail:" // channels the workers' broker refuses to subscribe to
 )
 
 var (
@@ -114,6 +118,17 @@ func newWorker(extra func(*centrifuge.Config)) (*worker, error) {
 		return nil, err
 	}
 	env.Node.SetMapBroker(mb)
+	gb, err := cl.NewGateBroker(env.Node)
+	if err != nil {
+		return nil, err
+	}
+	gb.SubscribeErr = func(ch string) error {
+		if strings.HasPrefix(ch, failPrefix) {
+			return errors.New("verif: broker refuses this channel")
+		}
+		return nil
+	}
+	env.Node.SetBroker(gb)
 	env.OnConnecting = func(_ context.Context, ev centrifuge.ConnectEvent) (centrifuge.ConnectReply, error) {
 		r := w.runner(ev.ClientID)
 		if r == nil {
@@ -215,6 +230,16 @@ func (r *runner) onConnecting() (centrifuge.ConnectReply, error) {
 		return centrifuge.ConnectReply{}, handlerDisc
 	case "nocred":
 		return centrifuge.ConnectReply{}, nil
+	case "sserr":
+		// accepted, but the connect-time server-side subscription expired in the past: connectCmd answers the
+		// connect with the error "expired" after it authenticated and registered the connection
+		return centrifuge.ConnectReply{Credentials: &centrifuge.Credentials{UserID: "u"}, ClientSideRefresh: r.cfg.CSR,
+			Subscriptions: map[string]centrifuge.SubscribeOptions{r.ch + "_ss": {ExpireAt: time.Now().Unix() - 10}}}, nil
+	case "ssdisc":
+		// accepted, but the broker fails the connect-time server-side subscription: disconnect(server error)
+		r.cause(codeServerError)
+		return centrifuge.ConnectReply{Credentials: &centrifuge.Credentials{UserID: "u"}, ClientSideRefresh: r.cfg.CSR,
+			Subscriptions: map[string]centrifuge.SubscribeOptions{failPrefix + r.ch: {}}}, nil
 	}
 	return centrifuge.ConnectReply{Credentials: &centrifuge.Credentials{UserID: "u"}, ClientSideRefresh: r.cfg.CSR}, nil
 }
@@ -601,6 +626,21 @@ func connectedBy(out []frame, m int) bool {
 	return false
 }
 
+// failedConnectBy: among the first m frames there is an error reply to a connect command
+func failedConnectBy(cmds []cmdRec, out []frame, m int) bool {
+	for _, q := range cmds {
+		if q.Kind != "connect" || q.ID == 0 {
+			continue
+		}
+		for x := q.Seen; x < m && x < len(out); x++ {
+			if out[x].T == "reply" && out[x].K == "error" && out[x].ID == q.ID {
+				return true
+			}
+		}
+	}
+	return false
+}
+
 func closedBy(out []frame, m int) (bool, int) {
 	for i := 0; i < m && i < len(out); i++ {
 		if out[i].T == "disc" {
@@ -634,6 +674,17 @@ func monitors(cmds []cmdRec, out []frame, cb []cbEntry, waiting map[int]int, cau
 				vs = append(vs, verdict{"gate:not-closed:" + c.Kind, fmt.Sprintf("command #%d (%s, id %d) arrived before the connection had connected and the connection was not closed", n, c.Kind, c.ID)})
 			} else if !okCode() {
 				vs = append(vs, verdict{fmt.Sprintf("gate:code-%d:%s", code, c.Kind), fmt.Sprintf("command #%d (%s, id %d) arrived before the connection had connected; the connection was closed with code %d instead of bad request (3501)", n, c.Kind, c.ID, code)})
+			}
+		}
+		// C09a': after a connect answered with an error reply every later command is refused
+		if !framed(c) && failedConnectBy(cmds, out, c.Seen) && !connectedBy(out, c.Seen) && !cb0 {
+			if calls[n] > 0 {
+				vs = append(vs, verdict{"failed-connect:handler-called:" + c.Kind, fmt.Sprintf("command #%d (%s, id %d) arrived after the connect command had been answered with an error reply and an application handler was invoked for it", n, c.Kind, c.ID)})
+			}
+			if !closed {
+				vs = append(vs, verdict{"failed-connect:not-closed:" + c.Kind, fmt.Sprintf("command #%d (%s, id %d) arrived after the connect command had been answered with an error reply and the connection was not closed", n, c.Kind, c.ID)})
+			} else if !okCode() {
+				vs = append(vs, verdict{fmt.Sprintf("failed-connect:code-%d:%s", code, c.Kind), fmt.Sprintf("command #%d (%s, id %d) arrived after the connect command had been answered with an error reply; the connection was closed with code %d instead of bad request (3501)", n, c.Kind, c.ID, code)})
 			}
 		}
 		// C09c
